@@ -58,7 +58,19 @@ static int op_powm_fp(int argc, tok_t *a, out_t *o) {
   dst_free(tp); dst_free(rp); return 0;
 }
 
+/* mpn_powlo_m [b] [e] n: b has at least n limbs; scratch of exactly 3n limbs between guards (powlo.c:84) */
+static int op_powlo_m(int argc, tok_t *a, out_t *o) {
+  NEED(argc == 3 && isvec(&a[0]) && isvec(&a[1]) && a[2].kind == T_NUM && !a[2].neg);
+  long n = tok_long(&a[2]), en = a[1].n;
+  NEED(n >= 1 && a[0].n >= n && en >= 1 && a[1].d[en - 1] != 0 && (en > 1 || a[1].d[0] > 1));
+  mp_limb_t *rp = dst_new(n), *tp = dst_new(3 * n);
+  mpn_powlo(rp, a[0].d, a[1].d, en, n, tp);
+  out_vec(o, rp, n);
+  if (!dst_ok(tp, 3 * n) || !dst_ok(rp, n)) out_err(o, "oob");
+  dst_free(tp); dst_free(rp); return 0;
+}
+
 const opdef_t ops_powmlimb[] = {
-  {"mpn_redc_n_l", op_redc_n_l}, {"mpn_powm_m", op_powm_m}, {"mpn_powm_fp", op_powm_fp},
+  {"mpn_redc_n_l", op_redc_n_l}, {"mpn_powm_m", op_powm_m}, {"mpn_powm_fp", op_powm_fp}, {"mpn_powlo_m", op_powlo_m},
   {0, 0}
 };
